@@ -15,8 +15,8 @@ verus! {
 //@include inc_cursor_types.rs
 
 // R7 stand-ins for lsp_types::{SignatureHelp, SignatureInformation} (same public fields), ParameterInformation and Documentation opaque
-#[verifier::external_body]
-pub struct ParameterInformation { pub opaque: u8 }
+pub enum ParameterLabel { Simple(String), LabelOffsets([u32; 2]) }
+pub struct ParameterInformation { pub label: ParameterLabel, pub documentation: Option<Documentation> }
 #[verifier::external_body]
 pub struct Documentation { pub opaque: u8 }
 pub struct SignatureInformation { pub label: String, pub documentation: Option<Documentation>, pub parameters: Option<Vec<ParameterInformation>>, pub active_parameter: Option<u32> }
@@ -45,15 +45,35 @@ pub open spec fn sorted_by_start(tokens: Seq<Token>) -> bool {
 //@ assume_body fn get_active_param
 //@end
 /// what is rendered for a parameter list / a label / a doc comment is named, not modelled
-pub uninterp spec fn param_infos(e: ProcedureEntry) -> Seq<ParameterInformation>;
 pub uninterp spec fn label_of(e: ProcedureEntry) -> Seq<char>;
 pub uninterp spec fn markup_of(d: Option<String>) -> Option<Documentation>;
-//~assume `get_param_info` (iter().map(..).collect() with Display) yields one entry per declared parameter, in order; the rendered labels are named `param_infos`
+/// what `Display` renders for a parameter entry is named, not modelled
+pub uninterp spec fn param_text_of(v: VariableEntry) -> Seq<char>;
+#[verifier::external_body]
+pub fn param_text(v: &VariableEntry) -> (r: String)
+    ensures r@ == param_text_of(*v),
+{ unimplemented!() }
+//~assume `xs.iter().map(f).collect()` applies f to every element in order (std iterator semantics; R8)
+#[verifier::external_body]
+pub fn iter_map_collect<F: Fn(&VariableEntry) -> ParameterInformation>(xs: &Vec<VariableEntry>, f: F) -> (r: Vec<ParameterInformation>)
+    requires forall|i: int| 0 <= i < xs@.len() ==> call_requires(f, (&#[trigger] xs@[i],)),
+    ensures r@.len() == xs@.len(), forall|i: int| 0 <= i < xs@.len() ==> call_ensures(f, (&xs@[i],), #[trigger] r@[i]),
+{ xs.iter().map(f).collect() }
+/// "one entry per parameter": entry i carries the rendered text of declared parameter i and no documentation
+pub open spec fn param_infos_ok(r: Seq<ParameterInformation>, e: ProcedureEntry) -> bool {
+    r.len() == e.parameters@.len() && forall|i: int| 0 <= i < r.len() ==> param_info_ok(#[trigger] r[i], e.parameters@[i])
+}
+pub open spec fn param_info_ok(p: ParameterInformation, v: VariableEntry) -> bool {
+    p.documentation is None && match p.label { ParameterLabel::Simple(t) => t@ == param_text_of(v), ParameterLabel::LabelOffsets(_) => false }
+}
 //@extract lsp4spl/src/features/signature_help.rs :: fn get_param_info
+//@ rewrite params_iter_map_collect param_to_string
 //@ ret r
 //@ sig
-    ensures r@ == param_infos(*proc_entry), r@.len() == proc_entry.parameters@.len(),
-//@ assume_body fn get_param_info
+    ensures param_infos_ok(r@, *proc_entry), //# get_param_info::one_entry_per_declared_parameter_in_order
+//@ closure |param| : &VariableEntry
+ -> (p: ParameterInformation)
+            ensures param_info_ok(p, *param)
 //@end
 #[verifier::external_body]
 pub fn entry_label(e: &ProcedureEntry) -> (r: String)
@@ -77,7 +97,7 @@ pub open spec fn call_tokens(doc: AnalyzedSource, c: CallStatement, offset: usiz
 pub open spec fn help_ok(h: SignatureHelp, e: ProcedureEntry, doc: AnalyzedSource, c: CallStatement, offset: usize, index: usize) -> bool {
     &&& h.signatures@.len() == 1 && h.active_signature == Some(0u32)
     &&& h.signatures@[0].label@ == label_of(e) && h.signatures@[0].documentation == markup_of(e.doc)
-    &&& h.signatures@[0].parameters is Some && h.signatures@[0].parameters->0@ == param_infos(e) && param_infos(e).len() == e.parameters@.len()
+    &&& h.signatures@[0].parameters is Some && param_infos_ok(h.signatures@[0].parameters->0@, e)
     &&& h.active_parameter == h.signatures@[0].active_parameter
     &&& (e.parameters@.len() == 0 ==> h.active_parameter is None)
     &&& (e.parameters@.len() > 0 ==> h.active_parameter is Some && h.active_parameter->0 as nat == count_commas_before(call_tokens(doc, c, offset), index as int, call_tokens(doc, c, offset).len() as int))
